@@ -291,11 +291,14 @@ func (s *SpokFile) run(stream iostream.IOStream, runner shell.Runner, force bool
 			// ...and record the new one only if the task succeeded (a task with no file
 			// dependencies is never cached so it always runs). If it failed, its last
 			// successful run is still the one described by the old digest.
-			newDigest := cachedDigest
-			if result.Ok() {
+			newDigest := ""
+			switch {
+			case !result.Ok():
+				newDigest = cachedDigest
+			case len(toHash) != 0:
 				newDigest = currentDigest
 			}
-			if len(toHash) != 0 && newDigest != "" {
+			if newDigest != "" {
 				s.logger.Debug("Updating cached state for task %s", taskToRun.Name)
 				cachedState.Set(taskToRun.Name, newDigest)
 				simhook.Point("run.dump.before", taskToRun.Name)
